@@ -36,9 +36,13 @@ class ATen:
         self.intval = intval  # Int term when this is a 0-d integer tensor (argmin index, ...)
         self.boolean = boolean
         self.ref = None
+        from . import numeval
         if z3.is_const(term) and term.decl().kind() == z3.Z3_OP_UNINTERPRETED:
-            from . import numeval
             numeval.ARR_SHAPES[term.decl().name()] = list(self.shape_l)   # shapes of free array constants (numeric replay)
+        elif isinstance(term, z3.ExprRef) and len(numeval.TERM_SHAPES) < 200000:
+            numeval.TERM_SHAPES[term.get_id()] = list(self.shape_l)       # shapes of composite terms (opaque sub-terms)
+            if z3.is_app(term) and term.decl().kind() == z3.Z3_OP_UNINTERPRETED and "!" in term.decl().name():
+                numeval.FUNC_SHAPES[term.decl().name()] = list(self.shape_l)   # contract functions (PS!0, W!0): one shape per function
 
     @property
     def rank(self):
@@ -430,6 +434,9 @@ def aten_getattr(interp, t: ATen, name):
         return _m(all_)
     if name == "abs":
         def abs_(interp):
+            const = _const_fill(t)
+            if const is not None and t.rank >= 1 and z3.is_true(z3.simplify(const[0] >= 0)):
+                return t   # |ones| = ones, |zeros| = zeros
             if t.rank == 0:
                 x = item_of(t)
                 return scalar_aten(z3.If(x >= 0, x, -x), t.dtype, t.kind)
@@ -443,6 +450,12 @@ def aten_getattr(interp, t: ATen, name):
         return _m(sqrt_)
     if name in ("sum", "mean"):
         def red(interp, dim=None):
+            const = _const_fill(t)
+            if const is not None and (dim is None or (t.rank == 1 and dim in (0, -1))):
+                # sum / mean of a constant-filled array (ones, zeros, full): interpreted
+                c, numel = const
+                val = c * z3.ToReal(numel) if name == "sum" else c
+                return scalar_aten(val, t.dtype, t.kind)
             if dim is None:
                 return mk(name + "_all", [t], [], t.dtype, t.kind, real=U(name + "_all_r", RealS, t.term))
             if t.rank == 2:
@@ -510,6 +523,26 @@ def aten_getattr(interp, t: ATen, name):
             fn = _REG[mod + name]
             return _m(lambda interp, *a, **k: fn(interp, t, *a, **k))
     return MISSING
+
+
+def _const_fill(t: ATen):
+    """(fill value as a Real term, number of elements as an Int term) when t is literally ones(..) / zeros(..) / full(.., c)"""
+    e = t.term
+    if not (z3.is_app(e) and e.num_args() >= 1):
+        return None
+    nm = e.decl().name().split("_")[0]
+    if nm not in ("ones", "zeros", "full"):
+        return None
+    dims = list(e.children()) if nm != "full" else list(e.children())[:-1]
+    if not dims or not all(z3.is_int(d) for d in dims):
+        return None
+    numel = dims[0]
+    for d in dims[1:]:
+        numel = numel * d
+    fill = z3.RealVal(1) if nm == "ones" else z3.RealVal(0) if nm == "zeros" else e.children()[-1]
+    if not z3.is_real(fill):
+        return None
+    return fill, numel
 
 
 def transpose(t: ATen):
